@@ -84,6 +84,8 @@ PROPS = {
             "C10_from_u32_injective": [],
             "C10_few_globals": [],
             "C10_compile_wellformed_example": [],
+            "C10_compile_wellformed_module": [],
+            "C10_module_in_range_program": [],
             "C10_name_collision_observation": [],
             "C10_add_local_slot": [],
             "C10_resolve_var_in_scope": [],
